@@ -66,6 +66,7 @@ def showTree : Expr → String
   | .inArr e a => "(in " ++ showTree e ++ s!" v{a})"
   | .incr pre dec e => "(incr " ++ (if pre then "pre" else "post") ++ " " ++ (if dec then "--" else "++") ++ " " ++ showTree e ++ ")"
   | .field e => "(fld " ++ showTree e ++ ")"
+  | .namedField e => "(nfld " ++ showTree e ++ ")"
   | .index a i => s!"(idx v{a} " ++ showTree i ++ ")"
   | .getline c t f => "(getline " ++ showTree c ++ " " ++ showTree t ++ " " ++ showTree f ++ ")"
 
